@@ -47,6 +47,40 @@ NOTES = {
     "C20-M1": ("forwarded list stub sized from the end of its forwarding chain", "a list that outgrew its block, then a collection that retains or releases the stub"),
     "C20-M2": ("intern table swept before temporary roots are marked", "a collection while a surviving string is held only by a temporary root, the same text produced again later"),
     "C20-M3": ("a failing native is relieved of only one temporary root", "an exception leaving a native that holds >= 2 temporary roots (reduce), caught, repeatedly"),
+    # ---- second round (worktrees /tmp/wt2_<P>), stored as M4..M6
+    "C04-M4": ("op_check_handler drops the filter class only when it matches", "a try with >= 2 catch clauses where an earlier clause rejects and a later one accepts"),
+    "C04-M5": ("catch variable defined as initialized local even when captured (FillBox skipped)", "the catch variable captured by a closure created inside the handler"),
+    "C04-M6": ("finish_unwind skips activate() when no frame is truncated", "a same-frame raise and catch, then the same fiber parks on a channel or completes as a launched fiber"),
+    "C05-M4": ("nursery sweep returns early when the nursery is empty, leaving the old generation marked", "a nursery collection with no object allocated since the previous one, then another collection before the next full sweep"),
+    "C05-M5": ("fiber stacks traced only up to stack_top", "a popped channel operand living only in a Rust local while add_used_channel allocates and a collection lands there"),
+    "C05-M6": ("print made a stack-less native", "print with >= 2 arguments, an earlier argument's str() growing the fiber's stack, a collection and memory reuse before the next argument is read"),
+    "C07-M4": ("wake-up scan skips channels that are closed and drained", "a fiber parked on the channel before it is closed, not woken some other way"),
+    "C07-M5": ("sync send decides from the parked-sender list instead of the queue", ">= 3 fibers contending on one sync channel, a woken sender retrying while the slot is empty and another sender is registered"),
+    "C07-M6": ("sync sender marks itself blocked before running its wake-up scan", "the sender holding a stale waiter entry of itself on an empty open sync channel when it parks on a second sync channel"),
+    "C08-M4": ("find_runnable_waiter pops a single entry", "two stale registrations of a finished fiber in front of a live receiver, then a send and a parking sender, nothing else touching the channel"),
+    "C08-M5": ("queue_blocked_fiber only checks the back of the run queue for duplicates", "a fiber woken, another fiber woken, the first found again, and it parks on a sync channel or completes before its duplicate entry is reached"),
+    "C08-M6": ("receiver parking on an empty buffered channel no longer rescans its other channels", "a receiver parked on a channel that is then closed by a fiber whose next blocking operation is a receive on an empty buffered channel"),
+    "C09-M4": ("strings longer than 4096 bytes skip the intern table, == patched, hash not", "two separately created equal strings longer than 4096 bytes used as map keys"),
+    "C09-M5": ("intern sweep skipped when nothing was interned since the last sweep", "old string dropped, a full collection with no new string interned since the previous collection, an equal string created afterwards"),
+    "C09-M6": ("Iter.reduce re-roots its accumulator in the wrong order", "a freshly allocated accumulator and a collection inside iter.next() of the reduced iterator"),
+    "C10-M4": ("numbers hashed by bit pattern in both representations", "a -0 key and a map with at least 113 entries"),
+    "C10-M5": ("list iterator walks a snapshot of the element buffer", "a live iterator, a mutation through another alias (growth), then continued iteration"),
+    "C10-M6": ("list.has() reads its argument before the stack rewrite and compares after", "a forwarded receiver (collected by a native from a hint-less iterator) and a searched value that is itself a forwarded list"),
+    "C13-M4": ("invoke cache filled before the field-shadows-method check", "a class with a method and a callable field of the same name at one call site executed at least twice"),
+    "C13-M5": ("occupied property slot retargeted in place keeps the old property index", "a property site seeing class A then class B twice in a row with the field at different indexes"),
+    "C13-M6": ("super-invoke cache entry stored after the callee frame is pushed (lands in the callee's module cache)", "a class extending a class of another module, a super call, and a site with the same slot number in the other module"),
+    "C14-M4": ("sentinel NaN pinned to a bit pattern the NaN-boxed build cannot hold", "an arithmetic NaN used as a map key in the NaN-boxed build"),
+    "C14-M5": ("Map.remove error message formats the key with derived Debug", "remove of an absent key with the message observed"),
+    "C14-M6": ("boxed Hash hashes negative numbers through i64", "a map with >= 2 number keys <= -1 whose iteration order is observed"),
+    "C17-M4": ("module cached under the resolved path before it is known to be the one requested", "an import path with >= 2 segments whose parent module is not loaded yet"),
+    "C17-M5": ("memoised module instance shared by all importers", "a whole-module import, then an exported let reassigned or a field written by that importer, then another whole-module import"),
+    "C17-M6": ("'circular import' guard compares the symbol with nil", "a selected-symbol import of an exported binding that currently holds nil"),
+    "C19-M4": ("stale line offsets for the prompt's file", "a prompt entry after the first that fails to compile with the error past the extent of the first entry"),
+    "C19-M5": ("stores from a function body into an earlier-line variable go to a capture slot", "a variable declared on an earlier line, a function on a later line assigning to it, a call and a read"),
+    "C19-M6": ("an entry that raises gives back its inline cache slots while its definitions stay alive", "an entry that defines something with a call site and then raises, and a later call into that definition"),
+    "C20-M4": ("threshold check on the non-object path skipped when the nursery is empty", "a phase that allocates only raw buffers (fibers) and no object"),
+    "C20-M5": ("vector handle size() uses len instead of cap", "lists allocated with capacity much larger than length (collected with a size hint)"),
+    "C20-M6": ("cached old-generation size updated with += promoted after a full sweep", "objects promoted, dead, released by a full collection, followed by nursery collections"),
 }
 
 
